@@ -110,7 +110,7 @@ func checkBuild(w WS, o BuildOpts, p Prediction, res Result, sb *Sandbox, expect
 			}
 			t := w.Target(l)
 			if t != nil {
-				for _, d := range w.DirectDeps(t) {
+				for _, d := range w.EffectiveDeps(t) {
 					if res.Started[d] > 0 {
 						if _, ok := endedAt[d]; !ok {
 							return pbt.Fail(sig("C03", "started-before-dependency-finished"), "%s started (event %d) before its dependency %s finished%s", l, i, d, tail())
